@@ -98,7 +98,7 @@ def service(flavour):
     def service_unit_decorator(raw_cls):
         __new__ = raw_cls.__new__
 
-        def __new_service__(cls, *args, **kwargs):
+        def __new_service__(cls, /, *args, **kwargs):
             if __new__ is object.__new__:
                 self = __new__(cls)
             else:
